@@ -400,7 +400,14 @@ def sysv(prog, rep):
         cs = [c for (b, i, c) in f.calls() if c.get("callee") in ("p_semaphore_acquire", "p_semaphore_release")]
         okw = len(cs) == 1 and cs[0]["callee"] == callee and guards.key(cs[0]["args"][0]) == "%s->sem" % f.param_names()[0]
         rep.ob("C07.6", f, "lock:wiring", okw, "%s -> %s (shm->sem)" % (fname, callee) if okw else "%s does not call %s on shm->sem exactly once" % (fname, callee), f.loc[0])
-    rep.floor("C07.6", 4)
+    # 0 is a valid segment id: the handle is invalid only when it is -1
+    from plint.wiring import id_validity_tests
+    nid, badid = id_validity_tests(u, "shm_hdl")
+    anchor = badid[0][0] if badid else sorted(u.functions.values(), key=lambda f_: f_.loc[0])[0]
+    rep.ob("C07.6", anchor, "id:validity", nid >= 1 and not badid, "%d test(s) of shm_hdl separate exactly the failure value -1 from the valid ids" % nid if (nid >= 1 and not badid) else
+           ("line %d: %s treats a valid segment id as no handle (`%s`)" % (line(badid[0][1]), badid[0][0].name, badid[0][2]) if badid else "no validity test of shm_hdl found"),
+           badid[0][1] if badid else anchor.loc[0])
+    rep.floor("C07.6", 5)
 
 
 def field_of_asg_target(fn, call):
@@ -410,6 +417,15 @@ def field_of_asg_target(fn, call):
                 return field_of(n["l"])
     return None
 
+
+# objects are zero-filled at birth: the functions of these units rely on it for every field their constructors do not store
+_run_clauses = run
+
+
+def run(prog, rep):
+    _run_clauses(prog, rep)
+    from plint.wiring import check_zero_init
+    check_zero_init(rep, "C07.2", prog, ['pshm-posix.c', 'pshm-sysv.c'], 2)
 
 # generic robustness battery: renaming every local/parameter in these files must not change any verdict
 RENAME_LOCALS = ['src/pshm-posix.c']
